@@ -4,7 +4,7 @@
    source (Gen/SerializeFields.v). *)
 From Coq Require Import ZArith List Bool String Ascii.
 From LV Require Import Ser.Value Gen.SerializeFields Ser.Serialize Ser.Relevant Ser.Serialize_proofs
-  Ser.SerializeDec Ser.SerializeDec_proofs.
+  Ser.SerializeDec Ser.SerializeDec_proofs Ser.StandaloneModel Gen.Standalone Ser.Standalone_proofs.
 Import ListNotations.
 Local Open Scope string_scope.
 Local Open Scope list_scope.
@@ -117,6 +117,52 @@ Definition C11_standalone_full_statement (gen : lark_inst -> string) (run : stri
 Theorem C11_wf_check_sound i : wf_inst_b i = true -> wf_inst i.
 Proof. exact (wf_inst_b_sound i). Qed.
 Print Assumptions C11_wf_check_sound.
+
+(* ---- stand-alone clause, program part.  The ###{standalone sections are re-extracted on every run with the tool's
+   own extract_sections / strip_docstrings (Gen/Standalone.v). *)
+(* same definitions => same runs, for any evaluator whose result depends only on the definitions reachable from the
+   entry point through global-name references (the one trusted hypothesis about Python) *)
+Theorem C11_standalone_same_program (D V : Type) (refs : D -> list string) (run : (string -> option D) -> string -> V) :
+  (forall p q entry, (forall n, reachable D refs p entry n -> p n = q n) -> run p entry = run q entry) ->
+  forall (lib sa : string -> option D) cl entry,
+  closure_ok_b (fun m => option_map refs (sa m)) cl entry = true ->
+  (forall n, In n cl -> sa n = lib n) ->
+  run sa entry = run lib entry.
+Proof. exact (same_program D V refs run). Qed.
+Print Assumptions C11_standalone_same_program.
+
+(* the same for the regenerated program: a generated module whose definitions have the library's normalised-AST
+   hash and references on the closure of Lark_StandAlone runs as the library's definitions do *)
+Theorem C11_standalone_generated_module (V : Type) (run : (string -> option (string * list string)) -> string -> V) :
+  (forall p q entry, (forall n, reachable _ snd p entry n -> p n = q n) -> run p entry = run q entry) ->
+  forall gen,
+  (forall n, In n (closure 12 sa_program [sa_entry]) -> as_prog gen n = as_prog sa_program n) ->
+  run (as_prog gen) sa_entry = run (as_prog sa_program) sa_entry.
+Proof.
+  intros Hloc gen Hag.
+  apply (generated_module_same_runs V run Hloc sa_program gen (closure 12 sa_program [sa_entry]) sa_entry); [|exact Hag].
+  vm_compute. reflexivity.
+Qed.
+Print Assumptions C11_standalone_generated_module.
+
+(* closed program: every global name an extracted definition mentions is bound by the module, is a builtin, or is one
+   of the declared construction / serialisation-only names; a helper left outside the markers breaks this Example *)
+Example C11_standalone_closed : closed_program sa_builtins declared_unprovided sa_program = true.
+Proof. vm_compute. reflexivity. Qed.
+Print Assumptions C11_standalone_closed.
+Theorem C11_standalone_closed_spec d r :
+  In d sa_program -> In r (s_refs d) -> In r (provided sa_program) \/ In r sa_builtins \/ In r declared_unprovided.
+Proof. exact (closed_program_spec sa_builtins declared_unprovided sa_program C11_standalone_closed d r). Qed.
+Print Assumptions C11_standalone_closed_spec.
+
+(* import-time order: base classes, decorators, defaults and module-level expressions only use names bound earlier *)
+Example C11_standalone_ordered : ordered_program sa_builtins sa_program = true.
+Proof. vm_compute. reflexivity. Qed.
+Print Assumptions C11_standalone_ordered.
+Theorem C11_standalone_ordered_spec pre d post x :
+  sa_program = pre ++ d :: post -> In x (s_eager d) -> In x sa_builtins \/ In x (provided pre).
+Proof. intros E. exact (ordered_program_spec sa_program sa_builtins C11_standalone_ordered pre d post E x). Qed.
+Print Assumptions C11_standalone_ordered_spec.
 
 (* regression for the defect this development found (flags came back as a list; repaired by Pattern._deserialize):
    without re-freezing, the flag test of lexer._create_unless changes its answer; with it, it never does *)
